@@ -215,6 +215,10 @@ func main() {
 					}
 				case len(inj.AtScalar) == 0:
 					fail = mk("a malformed ${{ }} placeholder at "+canon+" draws no diagnostic at the scalar: the placeholder is silently skipped", "unreported:"+canon)
+				case inj.Exempt == "" && !inj.Syntax && !strings.HasSuffix(shape, "}}"):
+					// a placeholder that is never closed (`${{ x }`, `${{ x`): positions that demand exactly
+					// one placeholder (bool / number / whole-section values) report it in their own words;
+					// for these shapes only "some diagnostic at the scalar" is demanded
 				case inj.Exempt == "" && !inj.Syntax:
 					fail = mk("a malformed ${{ }} placeholder at "+canon+" is not reported as an expression syntax error (only other diagnostics at the scalar)", "no-syntax-error:"+canon)
 				}
@@ -273,7 +277,8 @@ func main() {
 		}
 		emit := none
 		if isEvery {
-			emit = func(pi, shi int) bool { return *tier == "thorough" || shi == pi%len(shapes) }
+			// (the correspondence cases use the three closed shapes: the model's theorem is about them)
+			emit = func(pi, shi int) bool { return shi < 3 && (*tier == "thorough" || shi == pi%3) }
 		}
 		runSource(s, isEvery, all, emit, "")
 	}
